@@ -882,6 +882,16 @@ class PathEval:
         def sub(e):
             return ast.fix_missing_locations(_Subst({**self.env, **local}).visit(copy.deepcopy(e)))
 
+        def sub_obj(e):
+            """like sub(), but a container built in this function keeps its name (it denotes the object, not its initial value)"""
+            root = e
+            while isinstance(root, (ast.Subscript, ast.Attribute)):
+                root = root.value
+            if isinstance(root, ast.Name) and root.id not in local and self._is_value(self.env.get(root.id)):
+                env2 = {k: v for k, v in self.env.items() if k != root.id}
+                return ast.fix_missing_locations(_Subst({**env2, **local}).visit(copy.deepcopy(e)))
+            return sub(e)
+
         def conj(g, c):
             return c if g is None else ast.fix_missing_locations(ast.BoolOp(op=ast.And(), values=[copy.deepcopy(g), c]))
 
@@ -922,28 +932,27 @@ class PathEval:
                     for e in effects[n0:]:
                         e.setdefault('inner', []).insert(0, (inner_names, inner_it, copy.deepcopy(b.target)))
                     continue
-                if isinstance(b, ast.Assign) and len(b.targets) == 1 and isinstance(b.targets[0], ast.Name) and guard is None:
-                    local[b.targets[0].id] = sub(b.value)
+                if isinstance(b, ast.Assign) and len(b.targets) == 1 and isinstance(b.targets[0], ast.Name) and (guard is None or b.targets[0].id not in local):
+                    local[b.targets[0].id] = sub(b.value)       # a temporary (first bound under a guard: only used under it)
                     continue
-                if isinstance(b, ast.Assign) and len(b.targets) == 1 and isinstance(b.targets[0], ast.Tuple) and all(isinstance(x, ast.Name) for x in b.targets[0].elts) and guard is None:
+                if isinstance(b, ast.Assign) and len(b.targets) == 1 and isinstance(b.targets[0], ast.Tuple) and all(isinstance(x, ast.Name) for x in b.targets[0].elts) and (guard is None or not any(x.id in local for x in b.targets[0].elts)):
                     v = sub(b.value)
                     for i, x in enumerate(b.targets[0].elts):
                         local[x.id] = v.elts[i] if isinstance(v, ast.Tuple) and len(v.elts) == len(b.targets[0].elts) else ast.fix_missing_locations(ast.Subscript(value=copy.deepcopy(v), slice=ast.Constant(i), ctx=ast.Load()))
                     continue
                 if isinstance(b, ast.Expr) and isinstance(b.value, ast.Call) and isinstance(b.value.func, ast.Attribute):
                     c = sub(b.value)
-                    recv = c.func.value
-                    orig = b.value.func.value
-                    if isinstance(orig, ast.Name) and orig.id not in local and self._is_value(self.env.get(orig.id)):
-                        recv = copy.deepcopy(orig)       # a container built in this function: the receiver is the object, not its initial value
+                    recv = sub_obj(b.value.func.value)
                     effects.append(dict(kind='foreach', op='call', target=recv, method=c.func.attr, args=c.args, key=None, value=c.args[0] if c.args else None, guard=guard, node=b))
                     continue
                 if isinstance(b, ast.Assign) and len(b.targets) == 1 and isinstance(b.targets[0], ast.Subscript):
                     t = sub(b.targets[0])
+                    t.value = sub_obj(b.targets[0].value)
                     effects.append(dict(kind='foreach', op='store', target=t.value, method=None, args=[], key=t.slice, value=sub(b.value), guard=guard, node=b))
                     continue
                 if isinstance(b, ast.AugAssign) and isinstance(b.target, ast.Subscript):
                     t = sub(b.target)
+                    t.value = sub_obj(b.target.value)
                     effects.append(dict(kind='foreach', op='inc', target=t.value, method=type(b.op).__name__, args=[], key=t.slice, value=sub(b.value), guard=guard, node=b))
                     continue
                 if isinstance(b, ast.Delete) and len(b.targets) == 1 and isinstance(b.targets[0], ast.Subscript):
@@ -1019,8 +1028,12 @@ class PathEval:
             x = todo.pop()
             if isinstance(x, (ast.FunctionDef, ast.AsyncFunctionDef, ast.Lambda, ast.ClassDef)):
                 continue
-            if isinstance(x, ast.Call) and isinstance(x.func, ast.Attribute) and isinstance(x.func.value, ast.Name) and x.func.attr in MUTATORS and self._is_value(self.env.get(x.func.value.id)):
-                self.env[x.func.value.id] = None
+            if isinstance(x, ast.Call) and isinstance(x.func, ast.Attribute) and x.func.attr in MUTATORS:
+                root = x.func.value
+                while isinstance(root, (ast.Subscript, ast.Attribute)):
+                    root = root.value
+                if isinstance(root, ast.Name) and self._is_value(self.env.get(root.id)):
+                    self.env[root.id] = None
             if isinstance(x, (ast.Assign, ast.AugAssign, ast.AnnAssign, ast.Delete)):
                 tgs = x.targets if isinstance(x, (ast.Assign, ast.Delete)) else [x.target]
                 for t in tgs:
